@@ -565,8 +565,9 @@ class Sandbox:
                                                report=self.report, priority=priority)
         try:
             self.exception.feedback = self.feedback
-        except AttributeError:
+        except Exception:
             # Student-defined exceptions may not accept new attributes
+            # (__slots__, read-only properties, a __setattr__ of their own)
             pass
         return False
 
